@@ -82,6 +82,9 @@ func (p *ProofU) VerifyWithChallenge(pk *gabikeys.PublicKey, reconstructedChalle
 // reconstructUcommit reconstructs U from the information in the proof and the
 // provided public key.
 func (p *ProofU) reconstructUcommit(pk *gabikeys.PublicKey) (*big.Int, error) {
+	if p.U == nil || p.C == nil || p.VPrimeResponse == nil || p.SResponse == nil {
+		return nil, errors.New("incomplete proof")
+	}
 	// Reconstruct Ucommit
 	// U_commit = U^{-C} * S^{VPrimeResponse} * R_0^{SResponse}
 	Uc, err := common.ModPow(p.U, new(big.Int).Neg(p.C), pk.N)
@@ -242,6 +245,9 @@ func (p *ProofD) validAttributeIndices(pk *gabikeys.PublicKey) bool {
 // reconstructZ reconstructs Z from the information in the proof and the
 // provided public key.
 func (p *ProofD) reconstructZ(pk *gabikeys.PublicKey) (*big.Int, error) {
+	if p.C == nil || p.A == nil || p.EResponse == nil || p.VResponse == nil {
+		return nil, errors.New("incomplete proof")
+	}
 	if !p.validAttributeIndices(pk) {
 		return nil, errors.New("invalid attribute indices in proof")
 	}
